@@ -3,6 +3,7 @@
 package network
 
 import (
+	"time"
 	"net"
 	"crypto/cipher"
 	"crypto/aes"
@@ -295,7 +296,11 @@ func H_C18_BlockTxn() {
 	col.Txs = []interface{}{known, uint64(sid)}
 	c := h_conn()
 	idx := btc.NewUint256(hash[:]).BIdx()
-	c.GetBlockInProgress[idx] = &oneBlockDl{hash: btc.NewUint256(hash[:]), col: col}
+	if zzverif.Bool("no-compact-block-collector") {
+		c.GetBlockInProgress[idx] = &oneBlockDl{hash: btc.NewUint256(hash[:])} // the block was asked for with a plain getdata
+	} else {
+		c.GetBlockInProgress[idx] = &oneBlockDl{hash: btc.NewUint256(hash[:]), col: col}
+	}
 	b2g := new(OneBlockToGet)
 	b2g.Block, _ = btc.NewBlock(make([]byte, 80))
 	b2g.Block.Hash = btc.NewUint256(hash[:])
@@ -347,16 +352,27 @@ func H_C18_BlockTxn() {
 func h_all_locks_free(c *OneConnection, label string) {
 	h_locks_free(c, label)
 	zzverif.Assert(label+".TxMutex", !zzverif.MutexHeld(&txpool.TxMutex))
-	zzverif.Assert(label+".any-mutex", zzverif.MutexesHeld() == 0)
+	free := zzverif.MutexesHeld() == 0
+	if !zzverif.Symbolic() {
+		// natively: the mutexes of other packages that cannot be named are probed through their Lock functions
+		done := make(chan bool, 1)
+		go func() { peersdb.Lock(); peersdb.Unlock(); done <- true }()
+		select {
+		case <-done:
+		case <-time.After(300 * time.Millisecond):
+			free = false
+		}
+	}
+	zzverif.Assert(label+".any-mutex", free)
 }
 
 // C18: "addr": count + 30-byte records; the peers database is a stub (arbitrary size, record present or not).
 func H_C18_Addr() {
 	h_stubs()
 	c := h_conn()
+	cnt := int(zzverif.Range64("peerdb.count", 100000))
 	if zzverif.Symbolic() {
-		zzverif.Stub("(*qdb.DB).Count / Get / Put: arbitrary size, arbitrary known record or none, no effect")
-		cnt := int(zzverif.Range64("peerdb.count", 100000))
+		zzverif.Stub("(*qdb.DB).Count / Get / Put: arbitrary size, arbitrary known record or none, no effect (natively: a real store filled with that many records)")
 		zzverif.Replace("(*qdb.DB).Count", func(db *qdb.DB) int { return cnt })
 		zzverif.Replace("(*qdb.DB).Get", func(db *qdb.DB, k qdb.KeyType) []byte {
 			if zzverif.Bool("peerdb.has") {
@@ -369,8 +385,15 @@ func H_C18_Addr() {
 		dir, _ := os.MkdirTemp("", "zzverif_c18_")
 		defer os.RemoveAll(dir)
 		old := peersdb.PeerDB
-		peersdb.PeerDB, _ = qdb.NewDB(dir+"/peers3", true)
-		defer func() { peersdb.PeerDB.Close(); peersdb.PeerDB = old }()
+		var db *qdb.DB
+		qdb.NewDBExt(&db, &qdb.NewDBOpts{Dir: dir + "/peers3", Volatile: true})
+		peersdb.PeerDB = db
+		defer func() { peersdb.PeerDB = old }()
+		// native realiser of the stubbed size: that many records (in memory: the store is opened volatile)
+		rec := make([]byte, 30)
+		for i := 0; i < cnt; i++ {
+			peersdb.PeerDB.Put(qdb.KeyType(uint64(i)|1<<62), rec)
+		}
 	}
 	maxL := 35 + 29*zzverif.Tier()
 	zzverif.Bound("addr payload", "every byte string of 0..35 and of 61 bytes (quick) / 0..64 bytes (thorough): count + up to 2 records")
